@@ -22,7 +22,9 @@ META = dict(
          "encrypted packets and a 10% sample of the rest) is subjected to: one-bit flip (thorough: all eight bits in the "
          "first two packets), all-bits flip, deletion, insertion of a random byte; plus truncation, whole-packet swap, "
          "drop and replay, and random multi-edits. Each edited stream is fed to a new real Transport/Packetizer keyed "
-         "identically (in-band NEWKEYS handled by the real _parse_newkeys) until it fails or runs out of data. "
+         "identically (in-band NEWKEYS handled by the real _parse_newkeys) until it fails or runs out of data; about half "
+         "of the streams of every framing family are decoded by a receiver in its debugging configuration (DEBUG log "
+         "channel + set_hexdump(True)). "
          "Deciding oracle: the delivered (type, payload) list must be a prefix of the sent list. Stronger monitor of the "
          "same mechanism: because every byte of an encrypted packet is covered by the MAC/tag in all three framing "
          "modes, no packet that overlaps the first modified byte may be delivered at all (catches truncated or skipped "
@@ -139,6 +141,7 @@ class Recorded:
             st = s["start"] - self.enc0
             self.pk.append((st, st + len(s["wire"]), mode, ml))
         self.sid = core._h(self.wire)
+        self.hexdump = False
         self.desc = dict(cipher=cipher, mac=mac, comp=comp, role=b.spec["sender_role"], strict=b.spec["strict"],
                          epochs=len(epochs), messages=len(self.sent), encrypted_bytes=len(self.region))
 
@@ -177,9 +180,10 @@ def decode(ctx, R, tampered, op):
         ctx.count("edits_without_effect")
         return
     ctx.case((R.sid, op, tampered if op.startswith(("insert", "multi", "append")) else None))
-    rx = R.b.receiver()
+    rx = R.b.receiver(hexdump=R.hexdump)
     rx.drain(R.head + tampered)
     ctx.count("tampered_streams_decoded")
+    ctx.count("decodes_hexdump_%s" % ("on" if R.hexdump else "off"))
     ctx.count("op_" + op.split(":")[0].split("@")[0])
     got = rx.delivered
     k = lcp(R.region, tampered)
@@ -188,6 +192,8 @@ def decode(ctx, R, tampered, op):
     ctx.count("outcome_" + (out[0] if out[0] != "exc" else type(out[1]).__name__))
     ctx.count("edit_in_%s_%s" % (mode, where.replace(" ", "_").replace("+", "_")))
     opname = op.split(":")[0].split("@")[0]
+    if R.hexdump:
+        where = where + ", receiver in hexdump/debug mode"
     if got != R.sent[:len(got)]:
         i = next((j for j in range(len(got)) if j >= len(R.sent) or got[j] != R.sent[j]), len(got))
         ctx.violation("tampered stream: receiver delivered data that was not sent (%s framing, edit in %s)"
@@ -297,6 +303,10 @@ def run(ctx):
                 fam_count[ff] = fam_count.get(ff, 0) + 1
                 b = record_stream(rng, c, m, comp, role, rekey, ctx.quick, k=fam_count[ff] + ctx.shard)
                 R = Recorded(b, c, m, comp)
+                # receiver-side debugging configuration (DEBUG log channel + set_hexdump) as a dimension:
+                # alternates within each framing family, the whole enumeration of a stream runs under one setting
+                R.hexdump = ((fam_count[ff] + ctx.shard) // 3) % 2 == 1
+                ctx.count("streams_%s_hexdump_%s" % (ff, "on" if R.hexdump else "off"))
                 # the untampered stream is C01's subject; here a receiver that fails on it is just a
                 # receiver that fails: the fault enumeration and its oracles apply unchanged
                 rx = b.receiver()
@@ -339,6 +349,12 @@ def run(ctx):
     ctx.require("streams_recorded", len(suites))
     ctx.require("streams_decoding_untampered", len(suites) // 4)
     ctx.require("streams_mixed_family_pairs", len(suites) // 2)
+    for f in pb.FAMILIES:
+        if BYFAM[f]:
+            ctx.require("streams_%s_hexdump_on" % f, 4)
+            ctx.require("streams_%s_hexdump_off" % f, 4)
+    ctx.require("decodes_hexdump_on", 8000)
+    ctx.note("receiver_debug_log_records", pb.debug_records())
     for fi in pb.FAMILIES:
         for fo in pb.FAMILIES:
             if BYFAM[fi] and BYFAM[fo]:
